@@ -21,8 +21,8 @@ func (r *Rng) Intn(n int) int {
 	}
 	return int(r.Next() % uint64(n))
 }
-func (r *Rng) Bool() bool          { return r.Next()&1 == 1 }
-func (r *Rng) Chance(p int) bool   { return r.Intn(100) < p }
+func (r *Rng) Bool() bool           { return r.Next()&1 == 1 }
+func (r *Rng) Chance(p int) bool    { return r.Intn(100) < p }
 func (r *Rng) Range(lo, hi int) int { return lo + r.Intn(hi-lo+1) }
 
 // ---------------------------------------------------------------- strings
